@@ -182,12 +182,16 @@ def run(res, f, tier):
        {"path_classes": sorted(classes)})
     # ---- same expression language: Rule = MetaItem* Expr with the very Expr of the stand-alone parser
     g, Pg = extracted_grammar(f)
-    Pg = reachable(Pg, ["Expr", "Rule"])
-    Ps = reachable(precedence.productions(), ["Expr", "Rule"])
-    Ig = cfg.inline_nonrecursive(Pg, keep={"Expr", "Rule"})
-    Is = cfg.inline_nonrecursive(Ps, keep={"Expr", "Rule"})
+    # the expression language itself is C07's: here `Expr` is opaque, and the rule text must be metadata items
+    # followed by that very nonterminal, which is also the start symbol of the stand-alone expression parser
+    starts = dict((p["lhs"], (list(p["rhs"]), p["term"])) for p in g["prods"] if p["lhs"].startswith("__"))
+    same_start = all(starts.get("__" + n, (None, None))[0] == [n] and [t for _, t in starts["__" + n][1]] == ["$0"] for n in ("Expr", "Rule"))
+    Pg = reachable([x for x in Pg if x[0] != "Expr"], ["Rule"])
+    Ps = reachable([x for x in precedence.productions() if x[0] != "Expr"], ["Rule"])
+    Ig = cfg.inline_nonrecursive(Pg, keep={"Rule"})
+    Is = cfg.inline_nonrecursive(Ps, keep={"Rule"})
     cls, _ = cfg.bisimulation_classes(Is, Ig)
-    rule_same = cls.get("a:Rule") is not None and cls.get("a:Rule") == cls.get("b:Rule") and cls.get("a:Expr") == cls.get("b:Expr")
+    rule_same = same_start and cls.get("a:Rule") is not None and cls.get("a:Rule") == cls.get("b:Rule")
     rule_prods = [(l, r, t) for l, r, t in Ig if l == "Rule"]
     uses_same_expr = all(r[-1] == "Expr" for _, r, _ in rule_prods) and len(rule_prods) == 2
     ob(rule_same and uses_same_expr, "C14|grammar", "rule text must be `(@key: Expr;)* Expr` over the same expression nonterminal as the stand-alone expression parser",
